@@ -2,6 +2,33 @@ CHECKS["C15"] = dict(
     overlay={"internal/proto/clientpb/zz_verif_c15_test.go": "harness/pkg/clientpb/c15_test.go"},
     units=[unit("c15", "./internal/proto/clientpb", "^TestC15(Model|Exhaustive)", shards=(16, 16), timeout=(600, 3000)),
            unit("c15race", "./internal/proto/clientpb", "^TestC15Race", race=True, shards=(8, 16), timeout=(600, 3000))],
-    rule=("placeholder"),
-    assumptions=[],
+    rule=("Reference list model written from the statement: Add accepts iff seq > mark[client]; Proposed raises marks (never lowers); "
+          "Get returns the first batchSize fresh accepted commands in arrival order and forgets what it examined, else blocks until its "
+          "context ends. Every returned batch is judged first by the clauses alone (full size, only added commands, none at or below "
+          "the mark, none handed out twice), then compared element by element with the model; at the end fillers from an unused "
+          "client complete the last batch and everything still fresh must come out in order, after which Get must block. "
+          "TestC15Model: rapid histories of add / proposed(batch over any commands) / proposed(a batch handed out earlier) / get, "
+          "batch 1..4, clients 1..3, seq 0..10, up to 60 ops, in two blocking modes (context ending after 5 ms, or the Get left "
+          "pending across the following operations and checked after each one). TestC15Exhaustive: ALL histories over "
+          "{get, add(c,s), proposed[c s]} for 2 clients and batch size 1..2: quick seq 1..3 up to length 5 plus seq 1..2 up to length 6, "
+          "thorough seq 1..3 up to length 7 (pending-Get mode; each history counted once, distinct by construction). "
+          "TestC15RaceConcurrent (-race): 1..4 producer goroutines, a marker goroutine and 0..2 consumer goroutines on one cache; "
+          "sound one-sided oracle (full batches, no double hand-out, nothing at or below a mark whose Proposed call had returned "
+          "before the Get started, per-producer order per observer incl. the final drain, a Get may stay blocked at quiescence only "
+          "if fewer than batchSize never-marked commands are owed, and exactly those come out of the drain). "
+          "All blocking decisions use the virtual clock of a testing/synctest bubble (it advances only when every goroutine is "
+          "durably blocked): 'must return' = 5 s virtual budget or synctest.Wait, 'must block' = context ends after 5 ms virtual / "
+          "is cancelled. Non-trivial (sequential) = at some Get an accepted command had gone stale while waiting (a Proposed landed "
+          "between its Add and the Get), or >= 2 full fresh batches were present; non-trivial (concurrent) = >= 2 batches handed out "
+          "during the concurrent phase, or stale commands held at quiescence, or >= 2 batches pending with no consumer. "
+          "distinct = hash of the case (rapid) / one per enumerated history (exhaustive)."),
+    assumptions=["goroutine interleavings are sampled under the race detector, not enumerated",
+                 "testing/synctest (Go runtime) is trusted to advance the bubble clock only when every goroutine of the bubble is "
+                 "durably blocked; blocking verdicts therefore do not depend on wall-clock time or machine load",
+                 "marks start at 0, so sequence number 0 is never fresh (real clients number their commands from 1)",
+                 "two Adds of the same (client, seq) before it is marked are two accepted commands (the cache does not de-duplicate "
+                 "unproposed commands; real clients send each sequence number once per replica)",
+                 "a Get whose context is already done while a full batch is ready may return either; such requests are not generated",
+                 "the duplicate filter inside Add is not observable through Get (a command stale at Add stays stale and is "
+                 "filtered at extraction), so it is outside this property"],
 )
